@@ -5,6 +5,7 @@ package sse
 import (
 	"io"
 	"math/rand"
+	"net/http"
 	"time"
 
 	"github.com/tmaxmax/go-sse/internal/parser"
@@ -105,3 +106,12 @@ func VerifValidHidden(v *ValidReplayer) (hidden []*Message) {
 
 func (c *Connection) VerifLastEventID() string { return c.lastEventID }
 func (c *Connection) VerifDispatch(ev Event)   { c.dispatch(ev) }
+
+// VerifResetRequest sets the last event ID and runs resetRequest: what a (re)connection attempt does to the request.
+func (c *Connection) VerifResetRequest(lastEventID string) error {
+	c.lastEventID = lastEventID
+	return c.resetRequest()
+}
+
+// VerifRequest is the request the connection sends.
+func (c *Connection) VerifRequest() *http.Request { return c.request }
